@@ -300,6 +300,9 @@ func (u *UserHash) SetAdmin(adminState bool) error {
 
 // Remove deletes hash file.
 func (u *UserHash) Remove() {
+	if !userNameRe.MatchString(u.user) {
+		return // invalid usernames can't exist - and must not be used to build a path
+	}
 	filename := filepath.Join(u.store.BaseDir, u.user)
 	os.Remove(filename + adminExt) //nolint:errcheck
 	os.Remove(filename + userExt)  //nolint:errcheck
@@ -310,6 +313,11 @@ func (u *UserHash) Remove() {
 // Exists checks if user exists. It also returns whether user is an admin. This returns true even if
 // the user's hash file format is not supported
 func (u *UserHash) Exists() (exists bool, isAdmin bool, err error) {
+	// Add(), Update(), SetAdmin() and Authenticate() all call Exists() first, so this keeps
+	// invalid usernames (path separators, '..', ...) from ever being used to build a path.
+	if !userNameRe.MatchString(u.user) {
+		return false, false, fmt.Errorf("whawty.auth.store: username '%s' is invalid", u.user)
+	}
 	filename := filepath.Join(u.store.BaseDir, u.user)
 
 	if ok, err := fileExists(filename + adminExt); err != nil {
